@@ -110,6 +110,10 @@ pub enum FrameOp {
     SetNestedPlain(u8, i64),
     /// `set_nested("k2.a.b", v)`: defined only when k2 and k2.a are objects
     SetNestedDeep(u8, i64),
+    /// `remove("k2.a")`: no flat key of that name exists; k2 may be an object that has a member `a`.  The
+    /// property does not say whether such a call reaches into the object — it may do nothing or drop the member
+    /// — only that a rolled-back frame undoes whatever it did
+    RemoveMember(u8),
 }
 
 #[derive(Clone, Debug, Serialize, Deserialize)]
@@ -1106,6 +1110,19 @@ fn run_frames(ops: &[FrameOp], obs: &mut Obs) -> Result<(), Violation> {
                 facts.remove(&dk);
                 model.remove(&dk);
             }
+            FrameOp::RemoveMember(k) => {
+                let dk = format!("{}.a", key(*k));
+                facts.remove(&dk);
+                obs.count("probe.remove_called_with_a_path_into_an_object");
+                // either reading is admissible: nothing happens (the model as it is), or the member goes
+                let mut reached = model.clone();
+                if let Some(Value::Object(o)) = reached.get_mut(&key(*k)) {
+                    if o.remove("a").is_some() && snapshot(&facts) == reached {
+                        model = reached;
+                        obs.count("probe.remove_with_a_path_dropped_the_member");
+                    }
+                }
+            }
         }
         let got = snapshot(&facts);
         if got != model {
@@ -1370,7 +1387,7 @@ impl World for BwdWorld {
             let deep = rng.chance(1, 4);
             let n = if deep { 11 + rng.usize(10) } else { 2 + rng.usize(9) };
             let ops = (0..n)
-                .map(|_| match rng.weighted(&[if deep { 32 } else { 22 }, 12, 16, 18, 12, 10, 10, 4, 10, 8, 5]) {
+                .map(|_| match rng.weighted(&[if deep { 32 } else { 22 }, 12, 16, 18, 12, 10, 10, 4, 10, 8, 5, 6]) {
                     0 => FrameOp::Begin,
                     1 => FrameOp::Commit,
                     2 => FrameOp::Rollback,
@@ -1381,7 +1398,8 @@ impl World for BwdWorld {
                     7 => FrameOp::RemoveDotted(rng.below(3) as u8),
                     8 => FrameOp::SetKind(rng.below(3) as u8, rng.below(8) as u8),
                     9 => FrameOp::SetNestedPlain(rng.below(3) as u8, rng.range(1, 9)),
-                    _ => FrameOp::SetNestedDeep(rng.below(3) as u8, rng.range(1, 9)),
+                    10 => FrameOp::SetNestedDeep(rng.below(3) as u8, rng.range(1, 9)),
+                    _ => FrameOp::RemoveMember(if rng.chance(1, 2) { 2 } else { rng.below(3) as u8 }),
                 })
                 .collect();
             return BwdTrace::Frames { hash_seed, ops };
